@@ -942,7 +942,8 @@ func (b *bitstream) skipVarUintLen(max uint64) (uint64, error) {
 // Remaining returns the number of bytes remaining in the current container.
 func (b *bitstream) remaining() uint64 {
 	if b.stack.empty() {
-		return math.MaxUint64
+		// Nothing bounds a top-level value except the offset arithmetic itself.
+		return math.MaxUint64 - b.pos
 	}
 
 	end := b.stack.peek().end
